@@ -14,7 +14,7 @@ pub struct C02Case {
 }
 
 pub fn decode(src: &mut Source) -> Box<dyn Case> {
-    let mut w = gen_world(src, WorldOpts::highlight());
+    let mut w = gen_world(src, WorldOpts { ext_langs: true, ..WorldOpts::highlight() });
     if src.chance(1, 5) {
         w.queries.push(src.pick(&["", " ", "-", "\0"]).to_string());
     }
@@ -43,8 +43,12 @@ impl Case for C02Case {
             let cs: Vec<char> = t.chars().collect();
             (*id, compose_model(table, &cs).into_iter().filter(|&c| c != '\0').collect::<String>())
         }).collect();
-        for q in &w.queries {
-            store.highlight_with((&SL.to_string(), &SR.to_string()));
+        for (qi, q) in w.queries.iter().enumerate() {
+            // (for the first query the markers are the ones the world configured - sentinels - before
+            // any clear / refill; they are not set again)
+            if qi > 0 {
+                store.highlight_with((&SL.to_string(), &SR.to_string()));
+            }
             let hits = search(&store, q);
             store.highlight_with((&self.other.0, &self.other.1));
             let hits2 = search(&store, q);
